@@ -263,5 +263,87 @@ theorem min_horizontal (hloc : FoldLocal L hmin) (a : Slice T) (ha : a.size = di
     exact MFa.cmp_min _ _
 
 end
+
+/-! ### horizontal max / min with distinct lane and tail operations (x86 floats: `maxps` in the lanes, Rust `max` in the
+tail and in part of the horizontal fold) -/
+
+/-- `generic_max_horizontal` / `generic_min_horizontal` with lane operation `vop`, tail operation `top`, seed `e` -/
+def extOps (e : T) (vop top : T → T → T) (hfold : (Nat → T) → T) (a : Nat → T) : ReduceOps T where
+  e := e
+  lane := fun acc i => vop acc (a i)
+  roll := vop
+  hfold := hfold
+  tail := fun v i => top v (a i)
+
+/-- what the horizontal-extreme kernels need from a backend -/
+structure ExtBackend (R : SimdRegister T Reg) (L : Nat) (lanes : Reg → Nat → T) (vop : T → T → T)
+    (hfold : (Nat → T) → T) (opR : Reg → Reg → Exec Reg) (opD : DenseLane Reg → DenseLane Reg → Exec (DenseLane Reg))
+    (toReg : DenseLane Reg → Exec Reg) (toValue : Reg → Exec T) : Prop where
+  mem : MemFaithful R L lanes
+  bcast : BroadcastFaithful R L lanes
+  op : Lanewise2 L lanes vop (fun _ => True) opR opD
+  fold : FoldFaithful L lanes vop hfold toReg toValue
+
+section
+variable {vop top : T → T → T} {e : T} {hext : (Nat → T) → T}
+variable (dims : Nat) (hfuel : dims < E.fuel)
+include hfuel
+
+theorem max_horizontal' (EB : ExtBackend R L lanes vop hext R.max R.max_dense R.max_to_register R.max_to_value)
+    (hseed : M.min = pure e) (hcmp : ∀ x y, M.cmp_max x y = pure (top x y))
+    (hloc : FoldLocal L hext) (a : Slice T) (ha : a.size = dims) :
+    generic_max_horizontal E R M dims a = pure (reduceModel (extOps e vop top hext a.get) L dims) := by
+  rw [Thm.Shapes.max_horizontal, ha, debugAssertEq_self]
+  simp only [pure_bind]
+  apply reduce_lanewise_model (extOps e vop top hext a.get) EB.mem.L_pos EB.mem.epd EB.mem.epl dims
+    ?_ ?_ (ReduceKernels.roll_tree EB.fold) ?_ EB.fold.to_value hloc ?_ hfuel
+  · obtain ⟨d, e', h, _⟩ := EB.bcast.filled_dense_ok e
+    exact ⟨d, by rw [hseed]; simp only [pure_bind]; exact e', h⟩
+  · intro i acc hi
+    obtain ⟨l1, e1, h1⟩ := EB.mem.load_dense_ok a i (by omega)
+    obtain ⟨d, e2, h2⟩ := EB.op.dense acc l1 (fun _ _ => trivial)
+    refine ⟨d, by rw [e1]; simp only [pure_bind]; exact e2, ?_⟩
+    intro k hk
+    rw [h2 k hk, h1 k hk]; rfl
+  · intro i acc hi
+    obtain ⟨l1, e1, h1⟩ := EB.mem.load_ok a i (by omega)
+    obtain ⟨d, e2, h2⟩ := EB.op.single acc l1 (fun _ _ => trivial)
+    refine ⟨d, by rw [e1]; simp only [pure_bind]; exact e2, ?_⟩
+    intro k hk
+    rw [h2 k hk, h1 k hk]; rfl
+  · intro i v hi
+    have : i < a.size := by omega
+    simp only [Slice.read, this, if_true, pure_bind]
+    exact hcmp _ _
+
+theorem min_horizontal' (EB : ExtBackend R L lanes vop hext R.min R.min_dense R.min_to_register R.min_to_value)
+    (hseed : M.max = pure e) (hcmp : ∀ x y, M.cmp_min x y = pure (top x y))
+    (hloc : FoldLocal L hext) (a : Slice T) (ha : a.size = dims) :
+    generic_min_horizontal E R M dims a = pure (reduceModel (extOps e vop top hext a.get) L dims) := by
+  rw [Thm.Shapes.min_horizontal, ha, debugAssertEq_self]
+  simp only [pure_bind]
+  apply reduce_lanewise_model (extOps e vop top hext a.get) EB.mem.L_pos EB.mem.epd EB.mem.epl dims
+    ?_ ?_ (ReduceKernels.roll_tree EB.fold) ?_ EB.fold.to_value hloc ?_ hfuel
+  · obtain ⟨d, e', h, _⟩ := EB.bcast.filled_dense_ok e
+    exact ⟨d, by rw [hseed]; simp only [pure_bind]; exact e', h⟩
+  · intro i acc hi
+    obtain ⟨l1, e1, h1⟩ := EB.mem.load_dense_ok a i (by omega)
+    obtain ⟨d, e2, h2⟩ := EB.op.dense acc l1 (fun _ _ => trivial)
+    refine ⟨d, by rw [e1]; simp only [pure_bind]; exact e2, ?_⟩
+    intro k hk
+    rw [h2 k hk, h1 k hk]; rfl
+  · intro i acc hi
+    obtain ⟨l1, e1, h1⟩ := EB.mem.load_ok a i (by omega)
+    obtain ⟨d, e2, h2⟩ := EB.op.single acc l1 (fun _ _ => trivial)
+    refine ⟨d, by rw [e1]; simp only [pure_bind]; exact e2, ?_⟩
+    intro k hk
+    rw [h2 k hk, h1 k hk]; rfl
+  · intro i v hi
+    have : i < a.size := by omega
+    simp only [Slice.read, this, if_true, pure_bind]
+    exact hcmp _ _
+
+end
+
 end KernelModel
 end Cfavml
